@@ -864,3 +864,31 @@ package mast
 //@ requires nn (> newMast 0)
 //@ ensures res [C06 C07] (and (> result W0) (= (diffState.oldMast H result) oldMast) (isNil (diffState.curKey H result)) (isNil (diffState.addedLink H result)) (isNil (diffState.removedLink H result)) (> (diffState.alreadyNotifiedOldLink H result) 0) (> (diffState.alreadyNotifiedNewLink H result) 0))
 //@ ensures stacks [C06 C07] (and (<= (stackLen H (inner result fid.diffState.oldStack)) 1) (<= (stackLen H (inner result fid.diffState.newStack)) 1) (StackOKnil H (inner result fid.diffState.newStack)) (StackOKnil H (inner result fid.diffState.oldStack)))
+
+//@ smt (define-fun oStack ((dc Int)) Int (inner dc fid.diffState.oldStack))
+//@ smt (define-fun nStack ((dc Int)) Int (inner dc fid.diffState.newStack))
+//@ smt (define-fun topOf ((h Heap) (st Int)) S_iterItem (itemAt h st (- (stackLen h st) 1)))
+//@ smt (define-fun isYield ((it S_iterItem)) Bool (isNil (S_iterItem.considerLink it)))
+//@ smt (define-fun yKey ((it S_iterItem)) Any (S_entry.Key (S_iterItem.yield it)))
+//@ smt (define-fun yVal ((it S_iterItem)) Any (S_entry.Value (S_iterItem.yield it)))
+// DiffReset: what resetCurrent establishes
+//@ smt (define-fun DiffReset ((h Heap) (dc Int)) Bool (and (isNil (diffState.addedLink h dc)) (isNil (diffState.removedLink h dc)) (isNil (diffState.curKey h dc)) (isNil (diffState.addedValue h dc)) (isNil (diffState.removedValue h dc)) (not (diffState.hasAdd h dc)) (not (diffState.hasRemove h dc))))
+// DiffCfg: the diff state is usable: both trees configured, maps allocated, old tree present when its stack is not empty
+//@ smt (define-fun DiffCfg ((h Heap) (m Int) (dc Int)) Bool (and (> dc 0) (> m 0) (not (= (Mast.keyOrder h m) 0)) (not (= (Mast.keyLayer h m) 0)) (> (diffState.alreadyNotifiedOldLink h dc) 0) (> (diffState.alreadyNotifiedNewLink h dc) 0) (=> (> (stackLen h (oStack dc)) 0) (and (> (diffState.oldMast h dc) 0) (not (= (Mast.keyLayer h (diffState.oldMast h dc)) 0))))))
+
+//@ func (*Mast).diffOne
+//@ tags C06 C07 C12 C15
+//@ uses ord
+//@ modifies W G.loads Map.Int.Any Map.Int.Any.has iterItemStack.things Arr.S_iterItem diffState.addedLink diffState.removedLink diffState.curKey diffState.addedValue diffState.removedValue diffState.hasAdd diffState.hasRemove iterItem.*@fresh entry.*@fresh Arr.Any@fresh Node.*@fresh mastNode.*@fresh Box.Bytes@fresh
+//@ requires cfg (DiffCfg H m dc)
+//@ requires reset [C06 C07] (DiffReset H dc)
+//@ requires stacks [T3] (and (StackOK H (oStack dc)) (StackOK H (nStack dc)) (AllOK H))
+//@ ensures done [C06] (=> (and (= (stackLen H0 (oStack dc)) 0) (= (stackLen H0 (nStack dc)) 0)) (= err (G.ErrNoMoreDiffs H0)))
+//@ ensures added [C07] (and (=> (= (stackLen H0 (nStack dc)) 0) (isNil (diffState.addedLink H dc))) (=> (> (stackLen H0 (nStack dc)) 0) (or (isNil (diffState.addedLink H dc)) (= (diffState.addedLink H dc) (S_iterItem.considerLink (topOf H0 (nStack dc)))))))
+//@ ensures removed [C07] (and (=> (= (stackLen H0 (oStack dc)) 0) (isNil (diffState.removedLink H dc))) (=> (> (stackLen H0 (oStack dc)) 0) (or (isNil (diffState.removedLink H dc)) (= (diffState.removedLink H dc) (S_iterItem.considerLink (topOf H0 (oStack dc)))))))
+//@ ensures notboth [C06] (not (and (diffState.hasAdd H dc) (diffState.hasRemove H dc)))
+//@ ensures addyield [C06] (=> (diffState.hasAdd H dc) (and (> (stackLen H0 (nStack dc)) 0) (isYield (topOf H0 (nStack dc))) (= (diffState.curKey H dc) (yKey (topOf H0 (nStack dc)))) (= (diffState.addedValue H dc) (yVal (topOf H0 (nStack dc))))))
+//@ ensures remyield [C06] (=> (diffState.hasRemove H dc) (and (> (stackLen H0 (oStack dc)) 0) (isYield (topOf H0 (oStack dc))) (= (diffState.curKey H dc) (yKey (topOf H0 (oStack dc)))) (= (diffState.removedValue H dc) (yVal (topOf H0 (oStack dc))))))
+//@ ensures both [C06] (=> (and (= err anil) (> (stackLen H0 (oStack dc)) 0) (> (stackLen H0 (nStack dc)) 0) (isYield (topOf H0 (oStack dc))) (isYield (topOf H0 (nStack dc)))) (and (=> (< (ord (yKey (topOf H0 (oStack dc))) (yKey (topOf H0 (nStack dc)))) 0) (and (diffState.hasRemove H dc) (= (stackLen H (nStack dc)) (stackLen H0 (nStack dc))) (= (stackLen H (oStack dc)) (- (stackLen H0 (oStack dc)) 1)))) (=> (> (ord (yKey (topOf H0 (oStack dc))) (yKey (topOf H0 (nStack dc)))) 0) (and (diffState.hasAdd H dc) (= (stackLen H (oStack dc)) (stackLen H0 (oStack dc))) (= (stackLen H (nStack dc)) (- (stackLen H0 (nStack dc)) 1)))) (=> (= (ord (yKey (topOf H0 (oStack dc))) (yKey (topOf H0 (nStack dc)))) 0) (and (not (diffState.hasAdd H dc)) (not (diffState.hasRemove H dc)) (= (stackLen H (oStack dc)) (- (stackLen H0 (oStack dc)) 1)) (= (stackLen H (nStack dc)) (- (stackLen H0 (nStack dc)) 1)) (= (isNil (diffState.curKey H dc)) (or (deepEq (yVal (topOf H0 (oStack dc))) (yVal (topOf H0 (nStack dc)))) (isNil (yKey (topOf H0 (oStack dc)))))) (=> (not (isNil (diffState.curKey H dc))) (and (= (diffState.curKey H dc) (yKey (topOf H0 (oStack dc)))) (= (diffState.addedValue H dc) (yVal (topOf H0 (nStack dc)))) (= (diffState.removedValue H dc) (yVal (topOf H0 (oStack dc))))))))))
+//@ ensures samelink [C15] (=> (and (> (stackLen H0 (oStack dc)) 0) (> (stackLen H0 (nStack dc)) 0) (not (isYield (topOf H0 (oStack dc)))) (= (S_iterItem.considerLink (topOf H0 (oStack dc))) (S_iterItem.considerLink (topOf H0 (nStack dc))))) (and (= err anil) (= (G.loads H) (G.loads H0)) (= (stackLen H (oStack dc)) (- (stackLen H0 (oStack dc)) 1)) (= (stackLen H (nStack dc)) (- (stackLen H0 (nStack dc)) 1)) (isNil (diffState.addedLink H dc)) (isNil (diffState.removedLink H dc)) (isNil (diffState.curKey H dc))))
+//@ ensures cfg (DiffCfg H m dc)
